@@ -74,6 +74,16 @@ def run_batch(arg):
         if not isinstance(f, periodictable.formulas.Formula):
             out.append({"exc": "NotAFormula"})
             continue
+        if len(out) % 2:
+            # the caller edits the object it was given (density and name are settable) and asks the same string again:
+            # what a string denotes does not depend on what became of an earlier answer
+            try:
+                f.density = 9.87654 if f.density is None else f.density * 1.75
+                f.name = "edited by its owner"
+                f = periodictable.formula(s, table=tabs[T])
+            except Exception as e:
+                out.append({"exc": type(e).__name__, "again": "exc", "second_request": True})
+                continue
         d = describe(f)
         d["str"] = str(f)
         out.append(d)
